@@ -18,6 +18,8 @@ Verdict(e) ==
    IN  IF e.visUsed # SortedSeqOf(v) THEN "harness.twin-is-not-R"
        ELSE IF e.obs.err # e.twin.err \/ SetOf(e.obs.raw) # SetOf(e.twin.raw)
             THEN "C12.same-as-block-free-text"          \* blocks hide exactly what they enclose
+       ELSE IF e.form = "filepoison"                      \* a line with an unparseable expression outside every block: the file
+            THEN (IF e.obs.raw # <<>> THEN "C12.ignore-block-leaks-when-the-file-has-an-unparseable-expression" ELSE "")   \* contributes nothing
        ELSE IF Clean(t) /\ ( \/ e.obs.err
                              \/ SetOf(e.obs.lic) # Expected(t, "L")
                              \/ SetOf(e.obs.cop) # Expected(t, "C")
